@@ -228,7 +228,20 @@ def up(ctx):
                 src = val.args[0] if okw else None
                 lat = [l for l in v.fsm_leaves(f) if l.kind == "nextvalue" and src is not None and key(l.target) == key(src)]
                 ob.instance("%s wide address" % tag, key(val))
-                if not okw or not lat or any(key(l.value) != "port_from.cmd.addr" for l in lat):
+                # a register of its own for the wide part, loaded with exactly the upper bits of the user address, is the same address
+                if not okw and isinstance(val, Obj) and val.cls == "Signal":
+                    lat2 = [l for l in v.fsm_leaves(f) if l.kind == "nextvalue" and key(l.target) == key(val)]
+                    if lat2 and all(key(l.value) == "port_from.cmd.addr[%d:]" % k for l in lat2):
+                        ob.instance("%s wide address register" % tag, [str(l)[:120] for l in lat2])
+                        continue_ = True
+                    else:
+                        ob.unknown("%s: wide address is the register %s, loaded with %s: not the latched user address [%d:] this rule reads" % (tag, key(val), [key(l.value) for l in lat2], k))
+                        continue_ = True
+                else:
+                    continue_ = False
+                if continue_:
+                    pass
+                elif not okw or not lat or any(key(l.value) != "port_from.cmd.addr" for l in lat):
                     ob.refute("up-addr:%s" % tag, "wide address is %s, expected latched user address [%d:]" % (key(val), k), wa[0].loc)
             ac = v.single_comb_def(Sym("addr_changed"))
             if ac is not None:
@@ -405,6 +418,7 @@ def lane_order(ctx):
         closers = [a for a, p in v.guard_lits(merge[0], False) if not p]
         lane = "port_from.cmd.addr[:%d]" % k
         joint = False
+        ordered_other = False
         detail = []
         for c in closers:
             dv = v.single_comb_def(c)
@@ -415,8 +429,20 @@ def lane_order(ctx):
                     detail.append(key(dj))
                     if lane in sup_keys and key(merge[0].target) in sup_keys:
                         joint = True
+                    for x in subterms(dj):
+                        if isinstance(x, Op) and x.op in ("<", "<=", ">", ">=") and lane in {key(a_) for a_ in x.args}:
+                            for o_ in x.args:
+                                if key(o_) == lane:
+                                    continue
+                                base_ = o_.args[0] if isinstance(o_, Op) and o_.op in ("slice", "index") else o_
+                                # a register that follows the lanes taken (updated while merging) may stand for the mask; one loaded only when the word is opened cannot
+                                if any(l_.kind == "nextvalue" and key(l_.target) == key(base_) for l_ in v.fsm_leaves(fs, merge[0].state)):
+                                    ordered_other = True
         ob.instance("ratio=%d merge guard" % ratio, {"closing condition disjuncts": detail, "joint(sel, lane)": joint})
-        if not joint:
+        if not joint and ordered_other:
+            ob.unknown("ratio=%d: the closing condition orders the incoming lane %s against another register than the selected-lane mask (%s): whether that register tracks the "
+                       "highest lane taken is not decided" % (ratio, lane, " | ".join(detail[:6])[:300]))
+        elif not joint:
             ob.refute("lane-order", "in the merging state a further command is accepted whenever %s is false; no disjunct relates the selected-lane mask "
                       "`sel` to the incoming lane %s, so a command to a lane at or below an already selected lane (descending or repeated addresses) "
                       "is merged although its data beat arrives after the higher lanes' beats: data is paired with the wrong lane / a beat is lost" %
